@@ -175,8 +175,11 @@ Arguments try_rlock {S}. Arguments runlock {S}. Arguments panic {S A}. Arguments
 Arguments get {S}. Arguments put {S}. Arguments emit {S}. Arguments emits {S}.
 Arguments locked_defer {S A}.
 
+Module LangNotations.
 Notation "x <- m ;; k" := (bind m (fun x => k)) (at level 61, m at next level, right associativity).
 Notation "m ;;; k" := (bind m (fun _ => k)) (at level 61, right associativity).
+End LangNotations.
+Import LangNotations.
 
 (* ------------------------------------------------------- Part 2: legacy handlers ---------- *)
 
@@ -352,6 +355,15 @@ Definition tick (e : env) (s : lstate) : lstate * list event :=
     else (s, [req q])
   end.
 
+(* onResourcePackResponse when it does not panic *)
+Definition lresp (e : env) (s : lstate) (b : bundle) : lstate * list event * ret :=
+  let peek := intermediate (bstatus b) in
+  let queued := hd_error (l_queue s) in
+  let s1 := if peek then s else set_queue s (tl (l_queue s)) in
+  let s2 := apply_status s1 queued (bstatus b) in
+  let '(s3, es) := if peek then (s2, []) else tick e s2 in
+  (s3, es ++ GOwn queued b :: report_events e queued b, RHandled (handled_of queued)).
+
 Definition lstep (e : env) (c : cfg) (s : lstate) (o : op) : lstate * list event * ret :=
   match o with
   | Queue id hash f be =>
@@ -362,13 +374,7 @@ Definition lstep (e : env) (c : cfg) (s : lstate) (o : op) : lstate * list event
   | Response b =>
     match l_queue s, nilguard c with
     | [], false => (s, [], RPanic)
-    | _, _ =>
-      let peek := intermediate (bstatus b) in
-      let queued := hd_error (l_queue s) in
-      let s1 := if peek then s else set_queue s (tl (l_queue s)) in
-      let s2 := apply_status s1 queued (bstatus b) in
-      let '(s3, es) := if peek then (s2, []) else tick e s2 in
-      (s3, es ++ GOwn queued b :: report_events e queued b, RHandled (handled_of queued))
+    | _, _ => lresp e s b
     end
   | Remove _ => (s, [], RPanic)
   | Clear => (mkL (l_next s) (l_prev s) (l_queue s) (l_pending s) None, [], RUnit)
@@ -395,7 +401,7 @@ Section Assoc.
   Fixpoint adel (k : N) (m : list (N * V)) : list (N * V) :=
     match m with
     | [] => []
-    | (k', v') :: r => if k' =? k then r else (k', v') :: adel k r
+    | (k', v') :: r => if k' =? k then adel k r else (k', v') :: adel k r
     end.
 End Assoc.
 Arguments aget {V}. Arguments aset {V}. Arguments adel {V}.
